@@ -33,7 +33,8 @@ CAL = [(2020, 3, 1, 0, 0, 0, 0), (2020, 1, 31, 18, 0, 0, 0), (2020, 2, 1, 6, 0, 
        (2020, 1, 1, 0, 0, 0, 0), (2020, 2, 29, 1, 0, 0, 0), (2020, 2, 28, 23, 0, 0, 0), (2020, 10, 2, 5, 30, 0, 0),
        (2020, 9, 30, 7, 0, 0, 500), (2021, 1, 1, 0, 0, 0, 0), (2020, 12, 31, 23, 59, 59, 999),
        (2020, 6, 15, 12, 0, 0, 0), (2020, 5, 20, 12, 0, 0, 0), (2020, 3, 1, 0, 0, 1, 0),
-       (2071, 5, 5, 5, 5, 5, 0)]          # the last one is outside the domain of sortRadix (1970..2069)
+       (2071, 5, 5, 5, 5, 5, 0),          # outside the domain of sortRadix (1970..2069), like the next ones
+       (2100, 2, 28, 23, 0, 0, 0), (2100, 3, 1, 1, 0, 0, 0), (2100, 12, 31, 23, 0, 0, 0), (2101, 1, 1, 1, 0, 0, 0)]
 NAN = float("nan")
 
 C01_OPS = ("create", "update", "remove", "setitem", "setitem_delete", "setitem_func", "setobs",
@@ -64,7 +65,7 @@ C04_OPS = ("add_obs", "sort", "insert_chrono", "insert_at", "remove_list", "remo
 DUP_SAFE_OPS = ("sort", "sort_radix", "remove_list", "remove_obs", "remove_first", "remove_last", "pop_obs",
                 "extract", "slice", "span", "span_track", "gt", "lt", "mod_n", "mod_pattern", "concat",
                 "insert_at", "add_obs", "insert_chrono", "set_obs", "fork_concat", "new_track")
-C17_OPS = ("abs_curv", "speed", "speed_direct", "ds")
+C17_OPS = ("abs_curv", "speed", "speed_direct", "ds", "transform", "fork_noise")
 
 
 def feq(a, b):
@@ -500,8 +501,9 @@ class TrackWorld(World):
         return {}
 
     def _g_fork_concat(self, r, m):
+        self.tagc += 70
         return {"other": r.randrange(self.cfg["sessions"]), "to": r.randrange(self.cfg["sessions"]),
-                "how": r.choice(["plus", "plus", "first", "mod2"])}
+                "how": r.choice(["plus", "plus", "first", "mod2"]), "tag0": self.tagc - 70}
 
     def _g_span_track(self, r, m):
         return {"other": r.randrange(self.cfg["sessions"])}
@@ -528,6 +530,17 @@ class TrackWorld(World):
 
     def _g_pop_obs(self, r, m):
         return {"i": r.randrange(64)}
+
+    def _g_transform(self, r, m):
+        return {"kind": r.choice(["shift_default", "shift_default", "shift_to", "translate", "scale"]),
+                "i": r.randrange(64), "tx": r.choice([1.0, -2.5, 100.0]), "ty": r.choice([0.0, 3.0]),
+                "h": r.choice([2.0, 0.5, 3.0])}
+
+    def _g_fork_noise(self, r, m):
+        self.tagc += 70
+        return {"to": r.randrange(self.cfg["sessions"]), "mode": r.choice(["linear", "circular", "euclidian"]),
+                "sigma": r.choice([0.5, 2.0]), "scope": r.choice([None, 5.0, 50.0]), "seed": r.randrange(10 ** 6),
+                "tag0": self.tagc - 70}
 
     def _g_speed_direct(self, r, m):
         return {}
@@ -1302,8 +1315,8 @@ class TrackWorld(World):
             if st["a"] not in m["names"]:
                 raise Skip()
             col = self._col(m, st["a"])
-            if any(not isinstance(v, float) or v != v for v in col):
-                raise Skip()
+            if any(not isinstance(v, float) or v != v or abs(v) > 1e8 for v in col):
+                raise Skip()            # coordinates stay on the planet (squares of 1e200 overflow: not C17)
             out = "x"
             text = "x=%s" % st["a"]
             exp = list(col)
@@ -1610,6 +1623,7 @@ class TrackWorld(World):
             self.model.pop(k, None)
             self.derived.pop(k, None)
         self.real[to], self.model[to] = rv, nm
+        self._retag(rv, nm, st.get("tag0", 10 ** 6))
         if o == s:
             self.probe("same_observation_at_two_positions")
         self.probe("concatenation_becomes_a_session")
@@ -1938,6 +1952,96 @@ class TrackWorld(World):
             return
         self._check_all("C17", where + " (positions, timestamps and other features must be unchanged)")
         self.observed(jsonable(rv))
+
+    def _retag(self, t, m, tag0):
+        """Give every observation object of a track handed over by the library a fresh unique
+        tag (height).  The same object at two positions keeps one tag."""
+        seen = {}
+        for i, o in enumerate(m["obs"]):
+            ro = t.getObs(i)
+            if id(ro) not in seen:
+                seen[id(ro)] = (tag0 + len(seen) + 1) * 2.0 ** -24
+                ro.position.setZ(seen[id(ro)])
+            o["z"] = seen[id(ro)]
+
+    def _adopt_positions(self, t, m):
+        for i, o in enumerate(m["obs"]):
+            p = t.getObs(i).position
+            o["x"], o["y"], o["z"] = p.getX(), p.getY(), p.getZ()
+        m["geo"] += 1
+
+    def op_transform(self, st):
+        """In-place geometric transformation of one track (shiftTo with its default target or an
+        explicit one, translate, scale).  The arithmetic is not judged (the new positions of
+        *this* track are adopted); every other session must be left exactly as it was, and
+        features computed afterwards are held to the new geometry."""
+        from tracklib.core import ENUCoords
+        t, m = self._sess(st)
+        n = len(m["obs"])
+        if n == 0:
+            raise Skip()
+        k = st["kind"]
+        if k == "shift_default":
+            _, exc = self.call(t.shiftTo, st["i"] % n)
+        elif k == "shift_to":
+            _, exc = self.call(t.shiftTo, st["i"] % n, ENUCoords(st["tx"], st["ty"], 0))
+        elif k == "translate":
+            _, exc = self.call(t.translate, st["tx"], st["ty"])
+        else:
+            _, exc = self.call(t.scale, st["h"])
+        if exc is not None:
+            return self._unexpected("C17", exc, "in-place transformation %s" % k)
+        if t.size() != n:
+            self.fail("C17", "table.size", "in-place transformation %s changed the number of observations" % k,
+                      n, t.size())
+            return
+        self._adopt_positions(t, m)
+        self.probe("track_transformed_in_place")
+        self._check_all("C17", "in-place transformation %s of session %d (every other track must be unchanged)"
+                        % (k, st.get("s", 0)))
+
+    def op_fork_noise(self, st):
+        """stochastics.noise returns a noised *copy*; it becomes a session of its own.  The copy
+        has another geometry, so it must not carry the source's curvilinear abscissa."""
+        import numpy
+        import random as _random
+        from tracklib.algo.stochastics import noise
+        from tracklib.core.kernel import GaussianKernel, DiracKernel
+        t, m = self._sess(st)
+        n = len(m["obs"])
+        if n < 2 or "ds" in m["names"]:
+            raise Skip()
+        numpy.random.seed(st["seed"])
+        _random.seed(st["seed"])
+        ker = DiracKernel() if st.get("scope") is None else GaussianKernel(st["scope"])
+        rv, exc = self.call(noise, t, [st["sigma"]], [ker], mode=st["mode"])
+        if exc is not None:
+            if isinstance(exc, Exception):
+                # degenerate geometries (repeated positions) give a singular covariance matrix:
+                # the call may be refused; the source must be what it was
+                self.probe("noise_refused")
+                self._check_all("C17", "refused noise() (nothing may change)")
+                return "domain"
+            return self._unexpected("C17", exc, "noise()")
+        self._check_all("C17", "noise() (the source track must be unchanged)")
+        if self.violations:
+            return
+        if rv is None or not hasattr(rv, "getObs") or rv.size() != n:
+            self.fail("C17", "derived.type", "noise() must return a track of the same size", n,
+                      None if rv is None or not hasattr(rv, "size") else rv.size())
+            return
+        to = st["to"]
+        nm = copy.deepcopy(m)
+        nm["fresh"] = {}
+        if "abs_curv" in nm["names"]:
+            self._delcol(nm, "abs_curv")
+        self.real[to], self.model[to] = rv, nm
+        self.derived.pop(to, None)
+        self._adopt_positions(rv, nm)
+        self._retag(rv, nm, st.get("tag0", 10 ** 6))
+        self.probe("noised_copy_becomes_a_session")
+        self._check_all("C17", "noise() (the noised copy: same fixes and features, no curvilinear abscissa of "
+                        "the old geometry)")
 
     def op_speed_direct(self, st):
         """The speed algorithm applied through addAnalyticalFeature: always recomputes, so it
